@@ -715,6 +715,29 @@ func catalogue() []corruption {
 			r.blockHash[0] ^= 1
 			return true
 		}},
+		{"withdrawals/sweep-one-validator-too-far", true, func(s *sim, r *blockRefs, pre *stateBox) bool {
+			// the payload a proposer would build who looks at one validator more than the sweep allows
+			if r.withdraw == nil {
+				return false
+			}
+			w2, err := s.w.withdrawalsOfSweep(unwrap(pre.st), 1)
+			if err != nil || reflect.DeepEqual(w2, *r.withdraw) || (len(w2) == 0 && len(*r.withdraw) == 0) {
+				return false
+			}
+			*r.withdraw = w2
+			return true
+		}},
+		{"withdrawals/sweep-one-validator-short", true, func(s *sim, r *blockRefs, pre *stateBox) bool {
+			if r.withdraw == nil {
+				return false
+			}
+			w2, err := s.w.withdrawalsOfSweep(unwrap(pre.st), -1)
+			if err != nil || reflect.DeepEqual(w2, *r.withdraw) || (len(w2) == 0 && len(*r.withdraw) == 0) {
+				return false
+			}
+			*r.withdraw = w2
+			return true
+		}},
 		{"withdrawals/missing", true, func(s *sim, r *blockRefs, _ *stateBox) bool {
 			if r.withdraw == nil || len(*r.withdraw) == 0 {
 				return false
@@ -819,7 +842,7 @@ func (s *sim) byzantine(parent *blockRec, blk *blockRec) {
 	// rare-state corruptions are tried first whenever the state allows them
 	var rare []corruption
 	for _, c := range cat {
-		if strings.HasSuffix(c.name, "of-withdrawable-validator") || c.name == "exit/too-young" || strings.HasSuffix(c.name, "under-current-version") || strings.HasSuffix(c.name, "-one-twice") || c.name == "deposit/first-one-repeated" || c.name == "attester-slashing/surround-in-the-wrong-order" {
+		if strings.HasSuffix(c.name, "of-withdrawable-validator") || c.name == "exit/too-young" || strings.HasSuffix(c.name, "under-current-version") || strings.HasSuffix(c.name, "-one-twice") || c.name == "deposit/first-one-repeated" || c.name == "attester-slashing/surround-in-the-wrong-order" || strings.HasPrefix(c.name, "withdrawals/sweep-") {
 			rare = append(rare, c)
 		}
 	}
